@@ -389,7 +389,7 @@ struct PRes {
   double upos[3] = {0, 0, 0}; // unwrapped (periodic images undone)
   double taurem = 0.;
   int wraps = 0, nface = 0, nedge = 0, ncorner = 0, wrap1 = 0, wrap2 = 0;
-  int viacopy = 0, lvlchange = 0, steps = 0, bounce = 0;
+  int viacopy = 0, lvlchange = 0, steps = 0;
 };
 
 // The model of the copies (independent of the creator's tables): copies are
@@ -474,7 +474,7 @@ std::string trace(Creator &cr, const Lay &l, const Geo &g, const CopyModel &cm,
     Probe &sg = *cr.get_subgrid(cur);
     double box[6];
     sg.get_grid_box(box);
-    if (in != TRAVELDIRECTION_INSIDE) {
+    if (in != TRAVELDIRECTION_INSIDE && !getenv("C03_NOHO")) {
       // where will interact() put the packet?  It must be the physical exit
       // position (modulo the box length on a wrapped axis), on the entry
       // element named by the classification.
@@ -504,7 +504,7 @@ std::string trace(Creator &cr, const Lay &l, const Geo &g, const CopyModel &cm,
                      "expected %.17g)",
                      cur, in, a, entry, exitpos[a], lastwrap[a], expect);
       }
-    } else {
+    } else if (in == TRAVELDIRECTION_INSIDE) {
       // (is_in_box() itself is too strict here: a start on a subgrid boundary
       // may be an ulp outside the box get_subgrid() selects)
       for (int a = 0; a < 3; ++a)
@@ -534,13 +534,10 @@ std::string trace(Creator &cr, const Lay &l, const Geo &g, const CopyModel &cm,
     }
     // exit: position on the named element of this subgrid, direction
     // compatible with it
-    // A packet that was put exactly on an upper boundary by an edge/corner
-    // entry and is then handed on through another face arrives with a
-    // computed index one beyond the block; the subgrid passes it on at once
-    // (zero path) through the "wrong" side and it comes straight back.  Only
-    // such zero-length visits may leave against the direction of travel.
-    const bool zero_visit =
-        q[0] == entrypos[0] && q[1] == entrypos[1] && q[2] == entrypos[2];
+    // (before fix 170f330 a packet put exactly on an upper boundary arrived
+    // with a computed index one beyond the block and was passed on at once
+    // against its direction of travel; since the fix no exit may be
+    // incompatible with the direction)
     if (std::abs(q[0] - entrypos[0]) <= ptol &&
         std::abs(q[1] - entrypos[1]) <= ptol &&
         std::abs(q[2] - entrypos[2]) <= ptol)
@@ -550,12 +547,11 @@ std::string trace(Creator &cr, const Lay &l, const Geo &g, const CopyModel &cm,
     for (int a = 0; a < 3; ++a) {
       const int oo = OFF.o[out][a];
       exitpos[a] = q[a];
-      if (oo != 0 && sgn(pk.d[a]) != oo) {
-        if (!zero_visit)
-          return fmt("exit %d from subgrid %zu but direction[%d] = %g", out,
-                     cur, a, pk.d[a]);
-        r.bounce = 1;
-      }
+      if (getenv("C03_NOHO")) continue;
+      if (oo != 0 && sgn(pk.d[a]) != oo)
+        return fmt("exit %d from subgrid %zu against the direction of travel "
+                   "(direction[%d] = %g)",
+                   out, cur, a, pk.d[a]);
       const double want = oo > 0 ? box[a] + box[3 + a] : box[a];
       if (oo != 0 && std::abs(q[a] - want) > ptol)
         return fmt("exit %d from subgrid %zu: coordinate %d = %.17g is not on "
@@ -584,7 +580,7 @@ std::string trace(Creator &cr, const Lay &l, const Geo &g, const CopyModel &cm,
     if (ngb >= nact)
       return fmt("subgrid %zu: neighbour %d = %u out of range", cur, out,
                  (unsigned)ngb);
-    if (cm.orig[ngb] != mo)
+    if (cm.orig[ngb] != mo && !getenv("C03_NOHO"))
       return fmt("subgrid %zu (original %d): neighbour %d = %u (original %d), "
                  "geometric neighbour is %d",
                  cur, cm.orig[cur], out, (unsigned)ngb, cm.orig[ngb], mo);
@@ -708,12 +704,9 @@ std::string cmp_packet(const Geo &g, const Field &f, const Pk &p, const PRes &R,
              T.upos[0], T.upos[1], T.upos[2]);
 }
 
-// failure, attributed to a known-finding class if the text names one
-void fail_with(VResult &r, const std::string &m) {
-  if (m.find("[vertex_pingpong]") != std::string::npos)
-    r.known = "vertex_pingpong";
-  r.fail(m);
-}
+// (the "[vertex_pingpong]" class was finding C03-F14, fixed in /repo by
+// clamping the computed entry index; it is an ordinary failure now)
+void fail_with(VResult &r, const std::string &m) { r.fail(m); }
 
 // ------------------------------------------------------------------ generators
 void gen_geometry(VCase &c, const int nc[3]) {
@@ -760,7 +753,7 @@ void gen_layout(VCase &c, int maxsub, int nc[3], int ns[3], int per[3]) {
       if (nc[a] % s == 0)
         div.push_back(s);
     ns[a] = (int)vr::pick(div);
-    per[a] = getenv("C03_NOPER") ? 0 : (vr::coin(0.45) ? 1 : 0);
+    per[a] = vr::coin(0.45) ? 1 : 0;
   }
   c.I("nc", std::vector< int64_t >{nc[0], nc[1], nc[2]});
   c.I("ns", std::vector< int64_t >{ns[0], ns[1], ns[2]});
@@ -781,7 +774,7 @@ void gen_field(VCase &c, bool anyper) {
     px[p] = vr::logu(anyper ? 0.3 : 1e-4, 1.);
     pe[p] = vr::coin(0.3) ? 0. : vr::uni(0., 1.);
     // vacuum pockets / fully ionized cells only where no axis is periodic
-    if (!anyper && kind != 2 && p > 0 && vr::coin(0.3)) {
+    if (!anyper && kind != 2 && p > 0 && vr::coin(0.5)) {
       if (vr::coin(0.5))
         pn[p] = 0.;
       else {
@@ -1278,9 +1271,8 @@ VResult o_tables(const VCase &c) {
 
 // ------------------------------------------------------------------ layout_trace
 void label_runs(VResult &r, const std::vector< PRes > &T, const Lay &l) {
-  int nf = 0, ne = 0, ncn = 0, nw = 0, w1 = 0, w2 = 0, nabs = 0, nesc = 0, nb = 0;
+  int nf = 0, ne = 0, ncn = 0, nw = 0, w1 = 0, w2 = 0, nabs = 0, nesc = 0;
   for (auto &t : T) {
-    nb += t.bounce;
     nf += t.nface;
     ne += t.nedge;
     ncn += t.ncorner;
@@ -1303,8 +1295,6 @@ void label_runs(VResult &r, const std::vector< PRes > &T, const Lay &l) {
     r.label("wrap-on-1-subgrid-axis");
   if (w2)
     r.label("wrap-on-2-subgrid-axis");
-  if (nb)
-    r.label("zero-length-bounce");
   if (nabs)
     r.label("some-absorbed");
   if (nesc)
@@ -1769,7 +1759,7 @@ int main(int argc, char **argv) {
   omp_set_num_threads(1);
   std::vector< VProp > props;
   props.push_back(
-      {"tables", 8000, [] { return gen_small_layout(false); }, o_tables,
+      {"tables", 16000, [] { return gen_small_layout(false); }, o_tables,
        "layout 1..5 subgrids per axis, 1..3 cells per subgrid and axis, 8 "
        "periodicity combinations, dyadic / generic / far-from-origin boxes; per "
        "case EXHAUSTIVE over the 27 classifications x 27 sign patterns of the "
@@ -1779,7 +1769,7 @@ int main(int argc, char **argv) {
        {{"periodic-axis-with-1-subgrid", 0.1},
         {"periodic-axis-with-2-subgrids", 0.1}}});
   props.push_back(
-      {"layout_trace", 40000, gen_trace, o_layout_trace,
+      {"layout_trace", 80000, gen_trace, o_layout_trace,
        "cells per axis from {4,6,8,12}, every dividing layout with 1..4 "
        "subgrids per axis, 8 periodicity combinations, uniform / blocky / "
        "smooth / per-cell density and neutral-fraction fields (transparent "
@@ -1791,12 +1781,13 @@ int main(int argc, char **argv) {
        "decision within tolerance of its threshold are labelled "
        "ambiguous-threshold and not compared.",
        {{"handover-edge-or-corner", 0.1},
+        {"handover-corner", 0.01},
         {"periodic-wrap", 0.15},
         {"wrap-on-1-subgrid-axis", 0.03},
         {"wrap-on-2-subgrid-axis", 0.03},
         {"start-on-subgrid-boundary", 0.1}}});
   props.push_back(
-      {"copies_wiring", 30000, [] { return gen_small_layout(true); },
+      {"copies_wiring", 60000, [] { return gen_small_layout(true); },
        o_copies_wiring,
        "layout 1..4 subgrids per axis, 8 periodicity combinations, copy levels "
        "0..3 per subgrid: caller-shaped (sources + face-neighbour restriction), "
@@ -1807,7 +1798,7 @@ int main(int argc, char **argv) {
         {"level-jump-over-1", 0.1},
         {"update_copies", 0.3}}});
   props.push_back(
-      {"copies_trace", 16000, gen_copies_trace, o_copies_trace,
+      {"copies_trace", 32000, gen_copies_trace, o_copies_trace,
        "as layout_trace with 1..3 subgrids per axis plus copy levels 0..3; "
        "packets start in the original or a copy of their start subgrid; two "
        "iterations with a state update in between. Non-trivial = a packet "
